@@ -13,7 +13,7 @@ CLAIMS = {
         'text': 'Decides on every path of the ten data-access execute() methods: fc->table map equals the spec data model, reads '
                 'return getValues(fc, validated address, validated count), writes store the request values at the validated '
                 'address, FC23 writes before it reads, responses echo the spec fields, the FC22 stored value has the spec truth '
-                'table, and validate/get/set of the slave context share one address transform, and the four tables of a context are distinct objects by default. Necessary structural conditions; '
+                'table, and validate/get/set of the slave context share one address transform, and the four tables of a context are distinct objects by default, and block getValues/setValues touch exactly the addressed cells. Necessary structural conditions; '
                 'request histories and "latest write wins" are not decided.',
         'note': 'In-memory ModbusSlaveContext only; struct and Python list semantics trusted; C18 decides block arithmetic.',
         'technique': 'path enumeration with value propagation + bitwise truth table + sibling comparison (static)',
@@ -32,22 +32,21 @@ CLAIMS = {
                 'exactly one send per path except broadcast / ignored absent unit, at most one transport write per send and only '
                 'under should_respond with the bytes of framer.buildPacket, ids copied before send, response classes carry the '
                 'request function/sub-function code, transport writes reachable only through send<-execute<-framer callback, '
-                'per-connection framer creation, processIncomingPacket call signatures, no deferred scheduling on the response path, and (datagram front-ends) the destination of every reply traced back to the source address of the datagram that carried this request.',
+                'per-connection framer creation, processIncomingPacket call signatures, no deferred scheduling on the response path, and (datagram front-ends) the destination of every reply traced back to the source address of the datagram that carried this request, one datagram per framer call, and coherent framer state between calls.',
         'note': 'request.execute may raise any Exception, context lookup NoSuchSlaveException; other statements non-raising. '
                 'Byte-exact output streams over request histories are not decided.',
         'technique': 'per-path effect counting over interprocedural path enumeration + who-may-call + signature conformance (static)',
     },
     'C10': {
         'text': 'Decides the unit-filter decision table rows the property fixes, that every non-broadcast path executes once against '
-                'context[request.unit_id], that the broadcast branch (iff broadcast_enable and unit 0) iterates context.slaves() once '
-                'each without sending, the gateway exception / silence for absent units, that every receive loop passes '
+                'context[request.unit_id], that the broadcast branch (iff broadcast_enable and unit 0) iterates context.slaves() and executes in every iteration, once each, without sending, the gateway exception / silence for absent units, that every receive loop passes '
                 'context.slaves()/context.single and admits unit 0 under broadcast, the server-context routing/id interval, and that contexts do not share default blocks (a write to one unit cannot reach another through a shared default).',
         'note': 'Non-interference between unit datastores at run time follows from these routing facts plus C05 R2; it is not itself decided.',
         'technique': 'decision-table enumeration + path routing analysis + sibling agreement (static)',
     },
     'C12': {
         'text': 'Exception-flow containment: in each sync and asyncio receive loop no exception raised by the framer call or the '
-                'transport read can leave the loop, and the handler resets the framer or ends the connection; datastore mutators are '
+                'transport read can leave the loop, and the handler resets the framer or ends the connection (a handler task shared by all peers of a datagram endpoint must not end); datastore mutators are '
                 'reachable only through Request.execute <- front-end execute; framers/decoders never touch datastores; framers hold no '
                 'class-level mutable state and every connection owns its framer; a framer path that delivers a message without a successful checkFrame is accepted only when restricted to function codes >= 0x80 (they decode to a request that touches no datastore). Thorough tier cross-checks the Twisted reactor '
                 'containment assumption against the installed Twisted sources.',
@@ -57,7 +56,7 @@ CLAIMS = {
     'C17': {
         'text': 'Sibling cross-check: the normalised execute / send / receive-loop summaries of all seven front-end variants are compared '
                 'with the reference (sync stream handler); any divergence in exception->response mapping, id copies, send count, context '
-                'key, should_respond gate, payload source or framer-call arguments is reported. Stream receive loops must not reset the framer on an iteration without a fault, for every reachable state of their loop-carried flags (fixpoint over the loop body). Broadcast rows are exempt (C10).',
+                'key, should_respond gate, payload source or framer-call arguments is reported. Datagram front-ends hand the framer one datagram per call. Stream receive loops must not reset the framer on an iteration without a fault, for every reachable state of their loop-carried flags (fixpoint over the loop body). Broadcast rows are exempt (C10).',
         'note': 'Decides agreement of the code summaries, not byte-identical outputs over histories or interleavings.',
         'technique': 'cross-checking sibling implementations via path summaries (static)',
     },
@@ -65,8 +64,7 @@ CLAIMS = {
         'text': 'Enumerates every interprocedural path of processIncomingPacket (TCP, RTU, ASCII, binary; callees inlined) and decides '
                 'four necessary conditions of chunking independence: deliveries lie inside a loop that continues after a delivery; on '
                 'every path that takes a data-absence outcome (length too small / end delimiter not found) nothing is discarded, raised '
-                'or delivered afterwards; header truthiness after construction equals that after reset when code branches on it; sizing '
-                'errors on partial data cannot escape. Eight genuine defects of the pinned tree are listed as known findings.',
+                'or delivered afterwards; header truthiness after construction equals that after reset when code branches on it; sizing errors on partial data cannot escape; plus coherence of the state carried between calls (a cached header is reset whenever bytes are dropped from the front of the buffer, addToFrame only appends, no branch looks at the chunk just received). Eight genuine defects of the pinned tree are listed as known findings.',
         'note': 'Only explicit length / delimiter tests classify as data absence. Equality of delivered sequences over all chunkings is not decided.',
         'technique': 'interprocedural path enumeration with effect classification (buffer shrink / delivery / raise) (static)',
     },
@@ -80,8 +78,7 @@ CLAIMS = {
     },
     'C11': {
         'text': 'Decides progress conditions per failure kind on RTU/ASCII/binary: after a failed integrity check, after a foreign-unit '
-                'frame and when garbage precedes a start delimiter the buffer shrinks before the call returns; receive loops reset the '
-                'framer or end the connection after a framer exception. Liveness over all futures and the two-frame bound are not decided.',
+                'frame and when garbage precedes a start delimiter the buffer shrinks before the call returns; receive loops reset the framer or end the connection after a framer exception; the garbage skip cuts at the first start delimiter; state carried between calls stays coherent (cached header reset on every front drop, addToFrame only appends). Liveness over all futures and the two-frame bound are not decided.',
         'note': 'Necessary conditions only; RTU in-stream resynchronisation is not decided.',
         'technique': 'path enumeration + effect-after-event rules (static)',
     },
@@ -89,8 +86,7 @@ CLAIMS = {
         'text': 'Decides the pairing structure of ModbusTransactionManager.execute: under which key the received message is filed '
                 '(its own id vs. a key forced from the request), whether reply transaction id / function code are ever compared '
                 'with the request, that the unit filter is request.unit_id, that the framed bytes are those received in this call, '
-                'that no reachable fallback fetches under a foreign key, that a fresh id is allocated and stale framer bytes are '
-                'cleared before transmitting. Two genuine defects are listed as known findings.',
+                'that no reachable fallback fetches under a foreign key, that a fresh id is allocated and stale framer bytes are cleared before transmitting; a TCP read of unknown size ends only on its deadline. Two genuine defects are listed as known findings.',
         'note': 'Structural necessary conditions; reply contents and connection histories are not explored.',
         'technique': 'key-provenance / must-compare rule over region-scoped path enumeration (static)',
     },
@@ -98,7 +94,7 @@ CLAIMS = {
         'text': 'Loop-variant analysis of the retry loop (initial value retries + 1, > 0 test, exactly one decrement per back-edge, one '
                 '_transact per iteration, no other repeated sender), the retry decision table enumerated over the loop-body paths '
                 'against the documented options (a reply counts as the caller\'s own only under equality of unit ids), exception-flow from _recv/_send through _transact, the five framers and execute '
-                '(what can escape a client call), and the clean-exit state / close-on-fault discipline.',
+                '(what can escape a client call), the clean-exit state / close-on-fault discipline, and that the serial client drains stale input before every write for every framing.',
         'note': 'Wall-clock bounds of blocking transport calls and the correctness of a following transaction are not decided. '
                 'Six genuine defects are listed as known findings.',
         'technique': 'loop-variant extraction + decision-table enumeration + interprocedural exception-flow summaries (static)',
@@ -115,7 +111,7 @@ CLAIMS = {
         'text': 'Decides on every path of the Twisted client protocol: id provenance (getNextTID -> request -> registration key) and '
                 'ordering before buildPacket, 16-bit id arithmetic, routing by reply.transaction_id with removal before callback, the registry returning only the entry stored under the requested id, '
                 'dropping of unsolicited replies, connectionLost clearing the flag before errback-ing a snapshot of all pending entries, '
-                'failed deferred when not connected, FIFO append/pop(0).',
+                'failed deferred when not connected, FIFO append/pop(0), and the manager selected by a test on the final framer object.',
         'note': 'Deferred semantics are Twisted\'s; more than 65535 outstanding requests are out of scope. These rules are regression guards (all hold today).',
         'technique': 'dataflow / ordering rules over enumerated paths (static)',
     },
@@ -124,7 +120,7 @@ CLAIMS = {
                 'character), same path (direct with the configured byte order vs. through the word helpers), decoder advance = '
                 'calcsize and slice [pointer-n:pointer]; WC table = calcsize; the two word helpers are compared as transformations '
                 '(split into network-order words, reverse iff wordorder Little, re-pack per word with the byte order) which makes them '
-                'an involution pair; register transport formats and build() padding.',
+                'an involution pair; register transport formats, build() padding, to_string() = join of the current payload on every path and reset() emptying it.',
         'note': 'struct is trusted for value-level round trips; these rules decide the layout agreement for all values at once.',
         'technique': 'writer/reader pair table + sibling transformation comparison via value propagation (static)',
     },
@@ -133,14 +129,14 @@ CLAIMS = {
                 'exhaustiveness / injectivity / subclassing; the writer summary of every encode() (field order, widths, endianness, '
                 'byte-count expressions, bit lists through pack_bitstring, repeats) is compared with a spec-derived layout table; the '
                 'reader summary of every decode() (offset, width, target attribute, loop start/stride/iteration count) is compared '
-                'with the same table; dispatch dataflow of both _helper functions, including that a sub-function / MEI-type class looked up in a table is tested against None and not for truthiness (sub-function 0 is valid). Five genuine defects are known findings.',
+                'with the same table; dispatch dataflow of both _helper functions, including that a sub-function / MEI-type class looked up in a table is tested against None and not for truthiness (sub-function 0 is valid). Message constructors must not store a mutable default argument. Five genuine defects are known findings.',
         'note': 'pack_bitstring/unpack_bitstring arithmetic and struct are trusted; value ranges are not decided. The MEI object list is decided by C20.',
         'technique': 'abstract interpretation to wire-layout summaries compared with frozen spec tables; constant folding of decoder tables (static)',
     },
     'C02': {
         'text': 'Writer/reader agreement computed directly between each encode() summary and the matching decode() summary (independent '
                 'of the spec table), purity of encode (no attribute modified in place without a reset in the same call), decode not '
-                'accumulating, and losslessness of re-classing by sub-function code (no constructor-only state read after the swap; the dispatch is reached for every sub-function code, 0 included).',
+                'accumulating, and losslessness of re-classing by sub-function code (no constructor-only state read after the swap; the dispatch is reached for every sub-function code, 0 included), a leading field that decode stores in an attribute is encoded from the message and not from a constant, and no constructor stores a mutable default argument.',
         'note': 'struct trusted for value equality. Five genuine defects are known findings (four asymmetric pairs, one accumulation pinned by a test).',
         'technique': 'writer/reader layout-summary comparison + reaching-definition style purity rule (static)',
     },
@@ -148,7 +144,7 @@ CLAIMS = {
         'text': 'Writer summaries of the five buildPacket methods are compared with the specified ADU layouts; receive-side agreement is '
                 'decided by affine arithmetic on the summaries (advanceFrame consumes exactly the built packet length given the meaning '
                 'of the header length, getFrame starts at the function-code offset and ends before the check value, MBAP header parse '
-                'format/binding = build format/binding, populateResult copies the ids); the RTU length oracle (_rtu_frame_size, '
+                'format/binding = build format/binding, populateResult copies the ids, every MBAP length 2..254 is accepted); the RTU length oracle (_rtu_frame_size, '
                 '_rtu_byte_count_pos, custom size functions) is compared with the spec layout of every class reachable through '
                 'lookupPduClass; transforms applied on send need an inverse on receive; checksum comparison shape and CRC constants.',
         'note': 'Numerical correctness of computeCRC/computeLRC (hence the on-wire CRC byte order) and payload-content sweeps are not decided. Three known findings.',
@@ -158,7 +154,7 @@ CLAIMS = {
         'text': 'For every data-access request the affine form of get_response_pdu_size() is compared with 1 + the length of the encode '
                 'layout of the response class its execute() returns under the constructor binding; diagnostic predictions are compared '
                 'with the number of reply words per sub-function (Modbus-Plus statistics table const-folded); the per-framer overhead, '
-                'exception length, min_size and function-code peek tables are compared with the buildPacket layout summaries.',
+                'exception length, min_size and function-code peek tables are compared with the buildPacket layout summaries; the no-response bookkeeping that selects the read-everything mode lists a unit exactly on an empty reply and releases it on any non-empty one.',
         'note': 'Assumes getValues(fc, a, n) returns n values; binary overhead exact only without delimiter escaping. Two known findings (Modbus Plus predictions).',
         'technique': 'affine comparison of prediction functions with layout-summary lengths (static)',
     },
